@@ -244,6 +244,7 @@ def main(argv):
         "rule": res.get("rule", ""),
         "samples": res.get("samples", []) or [{"note": "no case was run"}],
         "distribution": res.get("distribution", {}),
+        "model_vm_compute_crosschecked": int(res.get("model_vm_compute_crosschecked", 0)),
         "known_findings_reconfirmed": known_lines,
         "proof_status": "checked" if proof_ok else "BROKEN: " + "; ".join(broken)[:2000],
     }
